@@ -195,20 +195,34 @@ class Ctx:
 
     FORBIDDEN = re.compile(r"\bsorry\b|\badmit\b|^\s*axiom\s|\bnative_decide\b|\bimplemented_by\b|\bunsafe\s|maxHeartbeats\s+0\b|\bbv_decide\b|\bofReduceBool\b")
 
-    def hygiene(self):
-        """No sorry/admit/axiom/native_decide/... outside comments in any Lean source."""
+    def lean_closure(self, rels):
+        """Lean source files (relative to lean/) reachable from `rels` through `import Bee2V.…`."""
+        seen, todo = set(), list(rels)
+        while todo:
+            r = todo.pop()
+            if r in seen or not os.path.exists(os.path.join(LEAN, r)):
+                continue
+            seen.add(r)
+            for m in re.finditer(r"^\s*import\s+(Bee2V(?:\.\w+)+)", open(os.path.join(LEAN, r)).read(), flags=re.M):
+                todo.append(m.group(1).replace(".", "/") + ".lean")
+        return sorted(seen)
+
+    def hygiene(self, rels=None):
+        """No sorry/admit/axiom/native_decide/... outside comments in the Lean sources the property's
+        theorems and driver depend on (import closure of `rels`)."""
         bad = []
-        for d, _, fs in os.walk(os.path.join(LEAN, "Bee2V")):
-            for f in fs:
-                if not f.endswith(".lean"):
-                    continue
-                p = os.path.join(d, f)
-                src = open(p).read()
-                src = re.sub(r"/-.*?-/", lambda m: "\n" * m.group(0).count("\n"), src, flags=re.S)
-                for i, line in enumerate(src.split("\n"), 1):
-                    code = line.split("--")[0]
-                    if self.FORBIDDEN.search(code):
-                        bad.append("%s:%d: %s" % (os.path.relpath(p, LEAN), i, line.strip()))
+        if rels is None:
+            rels = []
+            for d, _, fs in os.walk(os.path.join(LEAN, "Bee2V")):
+                rels += [os.path.relpath(os.path.join(d, f), LEAN) for f in fs if f.endswith(".lean")]
+        for rel in self.lean_closure(rels):
+            p = os.path.join(LEAN, rel)
+            src = open(p).read()
+            src = re.sub(r"/-.*?-/", lambda m: "\n" * m.group(0).count("\n"), src, flags=re.S)
+            for i, line in enumerate(src.split("\n"), 1):
+                code = line.split("--")[0]
+                if self.FORBIDDEN.search(code):
+                    bad.append("%s:%d: %s" % (rel, i, line.strip()))
         return bad
 
     def audit(self, modules, allow=STD_AXIOMS):
@@ -255,7 +269,8 @@ class Ctx:
             self.obligations += [(n, None) for n in names]
             self.cov["lake_errors"] = sorted("%s:%s" % x for x in failed)[:20]
             return False, log
-        bad = self.hygiene()
+        own = "Bee2V/%s/Main.lean" % self.id
+        bad = self.hygiene(list(props) + [own])
         aok, res, problems = self.audit(props, allow)
         for n in names:
             self.obligations.append((n, n in res and not [a for a in res[n] if a not in allow]))
@@ -281,7 +296,8 @@ class Ctx:
         is located by bisection and reported as c_out='CRASH: ...'."""
         c_out, c_err, rc = self.run_lines(exe, lines, env)
         if rc != 0 or len(c_out) != len(lines):
-            # locate the crashing line: run prefix one by one from the last good output
+            # the harness died: every complete output line belongs to a finished op; the op after
+            # the last complete line is the crashing one (harnesses are line-buffered, common.h)
             k = min(len(c_out), len(lines) - 1)
             msg = (c_err.strip().split("\n") or ["?"])
             summ = [l for l in msg if "ERROR" in l or "SUMMARY" in l or "Assertion" in l or "runtime error" in l][:3]
